@@ -77,7 +77,7 @@ func c02Count(maxSteps int) int {
 func c02(r *mon.Run) {
 	maxSteps := tierPick(r, 3, 4)
 	r.Rule = "exhaustive: every chain of 1..K steps (K=3 quick, 4 thorough) over 17 steps {.a .\"a\" .b [0] [-1] [*] [] [?a] [?@] .* [1:] [::-1] .[a,b] .{x:a} .type(@) .to_string(@) .not_null(a,'z')} x heads {a, @, bare} x terminators {end, | [0], (…).a, (…)[0], || b, == b, evaluated twice [c, c]} x a 35-document universe (empty / null-containing / heterogeneous / nested arrays and objects); " +
-		"plus seeded random nested projections with filters and slices on random typed documents. Oracle: ref.RefSet with member-order nondeterminism as a result set. Non-trivial = distinct (expression, document) with a projection whose expected result is a non-empty array, or null because the left side has the wrong type (counted separately)."
+		"plus seeded random nested projections with filters and slices on random typed documents; plus every chain of <= 4 navigational steps on 6 documents given as Go-typed slices ([][][]float64, [][]string, []map…; the reflection twins of the projection loops) against the model on the generic form. Oracle: ref.RefSet with member-order nondeterminism as a result set. Non-trivial = distinct (expression, document) with a projection whose expected result is a non-empty array, or null because the left side has the wrong type (counted separately)."
 	r.Exhaustive = true
 	r.Floor = 5000
 	r.Assumptions = []string{"projection scope follows the binding powers of C03 (flatten 9 < wildcard 20 < filter 21 < dot 40 < bracket 55): a projection's right-hand side takes every following step that binds tighter than the projecting operator",
@@ -128,7 +128,79 @@ func c02(r *mon.Run) {
 			res, _, _ := cx.runBoth(tree, expr, doc)
 			c02Account(t, tree, expr, doc, res, i)
 		}}
-	r.Exec(exh, rnd)
+	// the same projections over Go-typed slices (the reflection twins of the projection loops): every chain
+	// of <= 3 navigational steps on documents whose arrays are [][][]float64, [][]string, []map…, compared
+	// with the model on the generic form (results converted back with docs.ToGeneric)
+	typedTexts := []string{
+		`{"a":[[[1],[2,3]],[[4]],[]],"b":[[1,2],[3]]}`,
+		`{"a":[["a","b"],["c"],[]],"b":["x","y"]}`,
+		`{"a":[{"a":[[1,2],[3]],"b":[1]},{"a":[[4]],"b":[]},{"a":[],"b":[2]}],"b":[[["p"]],[["q","r"],[]]]}`,
+		`[[{"a":1,"b":[1,2]}],[{"a":2,"b":[3]},{"a":null,"b":[]}]]`,
+		`{"a":[[[["x"]]],[[["y","z"],[]]]],"b":[[true,false],[true]]}`,
+		`{"a":[[[1,2],[3]],[[4],[5,6]]],"b":[[[[7]]]]}`,
+	}
+	var typedDocs []interface{}
+	for _, tx := range typedTexts {
+		typedDocs = append(typedDocs, docs.J(tx))
+	}
+	tsteps := []gen.Step{gen.StField("a"), gen.StField("b"), gen.StIndex(0), gen.StIndex(-1), gen.StListStar(), gen.StFlatten(),
+		gen.StFilter(gen.Field("a")), gen.StFilter(gen.Current()), gen.StSlice(gen.I(1), nil, nil), gen.StSlice(nil, nil, gen.I(-1)),
+		gen.StMultiList(gen.Field("a"), gen.Field("b")), gen.StFunc("type", gen.Current()), gen.StFunc("length", gen.Current())}
+	TS := len(tsteps)
+	K := tierPick(r, 4, 5)
+	tcount, blk := 0, 1
+	for n := 1; n <= K; n++ {
+		blk *= TS
+		tcount += blk
+	}
+	tdecode := func(i int) *gen.Expr {
+		head := i % 2
+		i /= 2
+		n, block := 1, TS
+		for i >= block {
+			i -= block
+			block *= TS
+			n++
+		}
+		steps := make([]gen.Step, n)
+		for k := n - 1; k >= 0; k-- {
+			steps[k] = tsteps[i%TS]
+			i /= TS
+		}
+		if head == 0 {
+			return gen.Chain(gen.Field("a"), steps...)
+		}
+		return gen.Chain(nil, steps...)
+	}
+	ntd := len(typedDocs)
+	typed := mon.Workload{Name: "typed-slice-documents", N: tcount * 2 * ntd, Batch: 4000,
+		Describe: func(i int) string {
+			return gen.Spell(tdecode(i/ntd)) + " on the typed-slice form of " + ref.Canon(typedDocs[i%ntd])
+		},
+		Do: func(i int, t *mon.Tally) {
+			tree := tdecode(i / ntd)
+			doc := typedDocs[i%ntd]
+			expr := gen.SpellTight(tree)
+			res := ref.RefSet(tree, doc, gen.Quirks{})
+			t.Eval()
+			if res.Skipped != "" || res.DontCare {
+				t.Count("skipped:" + res.Skipped)
+				return
+			}
+			o := apiSearch(expr, docs.Typify(mon.DeepCopy(doc)))
+			if !o.Panicked && o.Err == nil {
+				o.V = docs.ToGeneric(o.V, false)
+			}
+			t.Count("typed outcome:" + o.Class())
+			if !matches(res, o) {
+				r.Violate(&mon.Violation{Workload: "typed-slice-documents", Index: i, API: "Search", Expr: expr, Doc: doc,
+					DocDesc:  "typed-slice form (docs.Typify: [][][]float64, [][]string, []map[string]interface{} …) of " + ref.Canon(doc),
+					Expected: expectedString(res), Observed: o.String(), Class: "typed-slice-documents: differs from the generic form"})
+				return
+			}
+			c02Account(t, tree, expr, doc, res, i)
+		}}
+	r.Exec(exh, rnd, typed)
 }
 
 func c02Account(t *mon.Tally, tree *gen.Expr, expr string, doc interface{}, res ref.Result, i int) {
